@@ -394,11 +394,14 @@ pub struct AppRow {
     /// the commission cell is an explicit 0.00
     #[serde(default)]
     pub zero_commission: bool,
+    /// a second security (buys only: it has no opening position)
+    #[serde(default)]
+    pub other_security: bool,
 }
 
 impl AppRow {
     pub fn usd(trade: &str) -> AppRow {
-        AppRow { trade: trade.to_string(), settle_off: 2, cur: Some("USD".into()), fx: None, commission: false, ccur: None, cfx: None, sell: false, roc: false, zero_price: false, zero_commission: false }
+        AppRow { trade: trade.to_string(), settle_off: 2, cur: Some("USD".into()), fx: None, commission: false, ccur: None, cfx: None, sell: false, roc: false, zero_price: false, zero_commission: false, other_security: false }
     }
 }
 
@@ -501,7 +504,8 @@ pub fn app_csv_fmt(rows: &[AppRow], first_index: usize, legacy_date: bool, date_
         let i = i + first_index;
         let trade = pd(&r.trade);
         s.push_str(&format!(
-            "FOO,{},{},{},{},{},{},{},{},{},{},{}\n",
+            "{},{},{},{},{},{},{},{},{},{},{},{}\n",
+            if r.other_security && !r.sell && !r.roc { "BAR" } else { "FOO" },
             fmt_date(trade, date_fmt),
             fmt_date(trade + Duration::days(r.settle_off), date_fmt),
             if r.roc { "RoC" } else if r.sell { "Sell" } else { "Buy" },
